@@ -87,7 +87,7 @@ def theorems_of(pid):
         return []
     out = []
     for i, line in enumerate(open(p), 1):
-        m = re.match(r'\s*(Theorem|Example|Lemma|Corollary)\s+([A-Za-z0-9_\']+)', line)
+        m = re.match(r'(Theorem|Example|Lemma|Corollary)\s+([A-Za-z0-9_\']+)', line)
         if m:
             out.append((m.group(2), m.group(1), i))
     return out
@@ -175,8 +175,8 @@ class Check:
         allk = json.load(open(kf)) if os.path.exists(kf) else []
         for extra in sorted(glob.glob(os.path.join(VERIF, 'known_findings.d', '*.json'))):
             allk += json.load(open(extra))
-        self.known = [k for k in allk if k.get('property') == pid and k.get('status') == 'open']
-        self.fixed = [k for k in allk if k.get('property') == pid and k.get('status') == 'fixed']
+        self.known = [k for k in allk if (k.get('property') == pid or pid in k.get('properties', [])) and k.get('status') == 'open']
+        self.fixed = [k for k in allk if (k.get('property') == pid or pid in k.get('properties', [])) and k.get('status') == 'fixed']
         self.known_seen = {}
         self._builds = {}
 
